@@ -5,6 +5,11 @@
 (* predicates of OAuthFlow (ReqSafe, MatchOK, PkceOK, ScriptFree, StateOK,    *)
 (* IssOK, PreOK) and states exactly the clauses of C15:                       *)
 (*   OnlySafeURLs      every request made through the client is https/loopback*)
+(*                     (the class of a request URL is a record [sch, auth,    *)
+(*                     form] computed by the harness from the concrete URL:   *)
+(*                     scheme class, authority class, opaque/hierarchical;    *)
+(*                     OAuthFlow!Safe: https, or a loopback authority under a *)
+(*                     scheme that is not script-capable)                     *)
 (*   UsedOnlyIfMatching, PKCERequired, NoScriptSchemes                         *)
 (*                     a served document from which a later request URL or    *)
 (*                     the authorization URL was taken is matching / PKCE /    *)
